@@ -353,6 +353,9 @@ class Model:
 
     def _propagate(self, domains: dict[str, set[int]]) -> bool:
         """Apply arc consistency until fixpoint. Returns False if domain wipeout."""
+        if any(not d for d in domains.values()):
+            # a variable declared with an empty range (lb > ub) has no value, constraints or not
+            return False
         changed = True
         while changed:
             changed = False
